@@ -513,6 +513,139 @@ def _decide(c1: Any, c2: Any) -> bool:
     return True
 
 
+def shipment() -> list[tuple[str, Any]]:
+    """Deterministic catalogue of objects to ship between interpreters; every
+    object has been used (hashed, stored in circuits and sets) before it is
+    pickled, as it would have been in a sending process."""
+    out: list[tuple[str, Any]] = []
+    inner = Circuit(2)
+    inner.append_gate(U3Gate(), 0, [0.1, 0.2, 0.3])
+    inner.append_gate(CNOTGate(), (0, 1))
+    mid = Circuit(2)
+    mid.append_circuit(inner, (1, 0), True)
+    mid.append_gate(RZGate(), 1, [0.4])
+    outer = Circuit(3)
+    outer.append_circuit(mid, (2, 0), True)
+    outer.append_gate(HGate(), 1)
+    outer.append_circuit(inner, (0, 1), True)
+    mixed = Circuit(2, [2, 3])
+    blk = Circuit(2, [2, 3])
+    blk.append_gate(HGate(), 0)
+    mixed.append_circuit(blk, (0, 1), True)
+    for nm, c in (('inner', inner), ('mid', mid), ('outer', outer),
+                  ('mixed', mixed)):
+        _ = hash(tuple(c.gate_set)), c.gate_counts, c.num_operations
+        out.append(('circuit:' + nm, c))
+        for k, op in enumerate(c):
+            _ = hash(op.gate)
+            out.append(('gate:%s[%d]' % (nm, k), op.gate))
+            out.append(('operation:%s[%d]' % (nm, k), op))
+    for name, g in gate_catalogue():
+        try:
+            _ = hash(g), {g}
+        except Exception:      # noqa: BLE001
+            continue
+        out.append(('gate:' + name, g))
+    m = MachineModel(3, [(0, 1), (1, 2)])
+    _ = hash(m.coupling_graph)
+    out.append(('model', m))
+    return out
+
+
+def cross_interpreter(repo: str) -> dict:
+    """Pickle the shipment in another interpreter (other string-hash seed,
+    other addresses), load it here and compare with the locally built one:
+    equality both ways, equal hashes for equal objects, lookups by equal
+    keys."""
+    import os
+    import subprocess
+    import sys
+    import tempfile
+    fails: list[dict] = []
+    n = 0
+    with tempfile.TemporaryDirectory() as td:
+        path = os.path.join(td, 'shipment.pkl')
+        env = dict(os.environ)
+        env['PYTHONHASHSEED'] = '12345'
+        code = ('import pickle, sys; '
+                'from pybound import c16_checks as K; '
+                'pickle.dump(K.shipment(), open(sys.argv[1], "wb"))')
+        r = subprocess.run([sys.executable, '-c', code, path], env=env,
+                           capture_output=True, text=True, timeout=600)
+        if r.returncode != 0:
+            return {'evaluated': 1, 'samples': [], 'failures': [{
+                'function': 'cross-interpreter shipment', 'kind': 'ensures',
+                'clause': 'the sending interpreter could pickle the shipment',
+                'scenario': 'sender', 'args': '',
+                'observed': r.stderr[-400:]}]}
+        with open(path, 'rb') as f:
+            got = pickle.load(f)
+    want = shipment()
+
+    def bad(name: str, msg: str) -> None:
+        if len(fails) < 6:
+            fails.append({
+                'function': 'cross-interpreter shipment', 'kind': 'ensures',
+                'clause': msg, 'scenario': name, 'args': '',
+                'observed': msg})
+    if [a for a, _ in got] != [a for a, _ in want]:
+        bad('catalogue', 'sender and receiver built different catalogues')
+        return {'evaluated': 1, 'failures': fails, 'samples': []}
+    for (name, rx), (_, loc) in zip(got, want):
+        n += 1
+        try:
+            if isinstance(rx, Circuit):
+                errs = circ_equal(loc, rx)
+                if errs:
+                    bad(name, 'received circuit differs: %s' % errs[0])
+                if not (rx == loc and loc == rx):
+                    bad(name, 'received circuit != the locally built one')
+                for g in loc.gate_set:
+                    if g not in rx.gate_set:
+                        bad(name, 'local gate %s is not found in the '
+                            'received circuit\'s gate_set' % g.name[:40])
+                    if rx.count(g) != loc.count(g):
+                        bad(name, 'received.count(%s) is %d, locally %d' % (
+                            g.name[:40], rx.count(g), loc.count(g)))
+                if rx.gate_counts != loc.gate_counts:
+                    bad(name, 'gate_counts differ from the local circuit')
+                both = loc.copy()
+                both.append_circuit(rx, list(range(rx.num_qudits)))
+                if len(both.gate_set) != len(loc.gate_set):
+                    bad(name, 'merging received and local operations gives '
+                        '%d gate kinds instead of %d' % (
+                            len(both.gate_set), len(loc.gate_set)))
+                continue
+            if isinstance(rx, MachineModel):
+                # MachineModel defines no __eq__: compared field by field
+                if not (rx.num_qudits == loc.num_qudits
+                        and tuple(rx.radixes) == tuple(loc.radixes)
+                        and rx.gate_set == loc.gate_set
+                        and rx.coupling_graph == loc.coupling_graph
+                        and hash(rx.coupling_graph)
+                        == hash(loc.coupling_graph)):
+                    bad(name, 'received model differs from the local one')
+                continue
+            if not (rx == loc and loc == rx):
+                bad(name, 'received object != the locally built one')
+                continue
+            try:
+                hl = hash(loc)
+            except TypeError:
+                continue
+            if hash(rx) != hl:
+                bad(name, 'equal objects hash differently after shipping '
+                    '(hash/equality contract)')
+            if rx not in {loc} or loc not in {rx}:
+                bad(name, 'set lookup by the equal object fails')
+        except Exception as e:     # noqa: BLE001
+            bad(name, 'raised %s: %s' % (type(e).__name__, str(e)[:200]))
+    return {'evaluated': n, 'failures': fails,
+            'samples': [{'case': '%d objects pickled under '
+                                 'PYTHONHASHSEED=12345 in another interpreter'
+                         % n}]}
+
+
 def _shared_mutables(a: Any, b: Any) -> list[str]:
     """Paths of mutable containers (list / dict / set / ndarray) reachable
     from both objects through containers and the attributes of pass data,
@@ -548,6 +681,7 @@ def run(repo: str, tier: str, seed: int, jobs: int) -> dict:
     t0 = time.time()
     obs = frame_obligations(repo)
     res = check(tier, seed)
+    res['cross-interpreter shipment'] = cross_interpreter(repo)
     results = []
     for name, d in sorted(res.items()):
         results.append({
